@@ -15,6 +15,7 @@ import (
 	"fmt"
 	"net"
 	"os"
+	"runtime"
 	"sort"
 	"strings"
 	"sync"
@@ -113,6 +114,7 @@ type hrResult struct {
 	FreeNotes   []string      `json:"free_notes"`
 	Sessions    int           `json:"sessions"`
 	Per         []hrPer       `json:"per"`
+	CallPanics  []string      `json:"call_panics"`
 }
 
 type hrPer struct {
@@ -226,6 +228,10 @@ type hrWorld struct {
 	prevX          *hrExpect
 	curX           *hrExpect
 	lateAck        int32
+	afterClose     int32 // class hr-after-close entered
+	onClosed       int32 // class hr-on-closed-session entered
+	closeReturned  int32
+	countAtClose   int64
 	abort          int32
 	maxSessions    int
 	oldClosed      bool
@@ -662,7 +668,26 @@ func (w *hrWorld) diff(x *hrExpect, sn hrSnap) string {
 
 // ---------------------------------------------------------------- round trips
 
+// a panic of the library in the caller's goroutine (GetStream / stream calls) is a finding, not a harness crash
+var hrCallPanics []string
+
 func hrRoundTrip(get func() (*Stream, error), put func(*Stream), msg string) (err error, getErr bool) {
+	defer func() {
+		if r := recover(); r != nil {
+			buf := make([]byte, 4096)
+			buf = buf[:runtime.Stack(buf, false)]
+			where := ""
+			for _, ln := range strings.Split(string(buf), "\n") {
+				if strings.Contains(ln, "shmipc-go.(") && !strings.Contains(ln, "hrRoundTrip") && !strings.Contains(ln, "hrWorld") {
+					where += strings.TrimSpace(ln) + " < "
+				}
+			}
+			hrPanicMu.Lock()
+			hrCallPanics = append(hrCallPanics, fmt.Sprintf("%v in %s", r, where))
+			hrPanicMu.Unlock()
+			err, getErr = fmt.Errorf("panic: %v", r), true
+		}
+	}()
 	st, err := get()
 	if err != nil {
 		return err, true
@@ -728,10 +753,11 @@ func (w *hrWorld) startTraffic() {
 			}
 			g0 := atomic.LoadInt64(&w.faultGen)
 			d0 := atomic.LoadInt32(&w.someDead)
-			w.trafMu.Lock()
-			st, gerr := w.sm.GetStream()
-			w.trafMu.Unlock()
-			err, _ := hrRoundTrip(func() (*Stream, error) { return st, gerr }, w.sm.PutBack, fmt.Sprintf("traffic-%d", n))
+			err, _ := hrRoundTrip(func() (*Stream, error) {
+				w.trafMu.Lock()
+				defer w.trafMu.Unlock()
+				return w.sm.GetStream()
+			}, w.sm.PutBack, fmt.Sprintf("traffic-%d", n))
 			g1 := atomic.LoadInt64(&w.faultGen)
 			d1 := atomic.LoadInt32(&w.someDead)
 			atomic.AddInt64(&w.traffic, 1)
@@ -772,6 +798,8 @@ func (w *hrWorld) startMonitor(known []string) {
 			w.mu.Lock()
 			if atomic.LoadInt32(&w.lateAck) == 1 && hrHas(known, "late-ack") && (kind == "ack-count-negative" || kind == "done-without-acks") {
 				w.monKnown = append(w.monKnown, "late-ack: "+detail)
+			} else if atomic.LoadInt32(&w.afterClose) == 1 && hrHas(known, "hr-after-close") && kind == "session-after-close" {
+				w.monKnown = append(w.monKnown, "hr-after-close: "+detail)
 			} else {
 				w.monViol = append(w.monViol, [2]string{kind, detail})
 			}
@@ -804,6 +832,11 @@ func (w *hrWorld) startMonitor(known []string) {
 			if n := w.sessCount(); w.maxSessions > 0 && n > w.maxSessions {
 				note("extra-session", fmt.Sprintf("%d sessions have been established; no behaviour of the model creates more than %d here: sessions are being created that nothing asked for", n, w.maxSessions-2))
 				atomic.StoreInt32(&w.abort, 1)
+			}
+			if atomic.LoadInt32(&w.closeReturned) == 1 {
+				if n := int64(w.sessCount()); n > atomic.LoadInt64(&w.countAtClose) {
+					note("session-after-close", fmt.Sprintf("SessionManager.Close had returned with %d sessions ever established; now there are %d: the closed manager still creates sessions", atomic.LoadInt64(&w.countAtClose), n))
+				}
 			}
 			if cnt < 0 {
 				note("ack-count-negative", fmt.Sprintf("hotRestartAckCount is %d (listener state %s, epoch %d)", cnt, hrStateName[st], ep))
@@ -1149,6 +1182,46 @@ func (w *hrWorld) probeAll(sc *hrScenario, x *hrExpect, out *hrOutcome, at strin
 	}
 }
 
+// C17 (a pool swapped by a hot restart is not rebuilt a second time; nothing is created that nobody uses): every open
+// session on a server must be the peer of an open session that the manager refers to (pool or reserve pool)
+func (w *hrWorld) orphanOracle() string {
+	var srvOpen, cliOpen int
+	ok := w.waitFor(4*time.Second, func() bool {
+		srvOpen, cliOpen = 0, 0
+		for _, l := range []*Listener{w.oldL, w.newL} {
+			if l == nil {
+				continue
+			}
+			l.sessions.sessionMu.Lock()
+			for s := range l.sessions.data {
+				if !s.IsClosed() {
+					srvOpen++
+				}
+			}
+			l.sessions.sessionMu.Unlock()
+		}
+		seen := map[*Session]bool{}
+		w.sm.RLock()
+		for p := 0; p < w.np; p++ {
+			for _, pl := range []*streamPool{w.sm.pools[p], w.sm.reservePools[p]} {
+				if pl == nil {
+					continue
+				}
+				if s := pl.Session(); s != nil && !s.IsClosed() && !seen[s] {
+					seen[s] = true
+					cliOpen++
+				}
+			}
+		}
+		w.sm.RUnlock()
+		return srvOpen <= cliOpen
+	})
+	if ok {
+		return ""
+	}
+	return fmt.Sprintf("%d sessions are open on the server side but the session manager refers to only %d open sessions: a session was established that no pool uses (and nothing will ever close)", srvOpen, cliOpen)
+}
+
 func (w *hrWorld) sessCount() int {
 	n := int(atomic.LoadInt64(&w.oldLn.n))
 	if w.newLn != nil {
@@ -1362,6 +1435,27 @@ func hrRunScenario(sc *hrScenario, job *hrJob) (out hrOutcome) {
 			var before hrSnap
 			if foreign {
 				before = w.snapshot(len(prev.Sess))
+			} else {
+				// classifiers of two findings: the handler looks neither at whether the manager has been closed nor at
+				// whether the session the event was received on is still open
+				hit := false
+				if w.closeDone != nil {
+					atomic.StoreInt32(&w.afterClose, 1)
+					if hrHas(job.Known, "hr-after-close") && !sc.Raw {
+						out.known = append(out.known, "hr-after-close")
+						hit = true
+					}
+				}
+				if c.IsClosed() {
+					atomic.StoreInt32(&w.onClosed, 1)
+					if hrHas(job.Known, "hr-on-closed-session") && !sc.Raw {
+						out.known = append(out.known, "hr-on-closed-session")
+						hit = true
+					}
+				}
+				if hit {
+					return
+				}
 			}
 			w.mu.Lock()
 			w.hrq[c] = w.hrq[c][1:]
@@ -1551,6 +1645,8 @@ func hrRunScenario(sc *hrScenario, job *hrJob) (out hrOutcome) {
 		case "SMCloseFin":
 			select {
 			case <-w.closeDone:
+				atomic.StoreInt64(&w.countAtClose, int64(w.sessCount()))
+				atomic.StoreInt32(&w.closeReturned, 1)
 			case <-time.After(hrLeaveLimit):
 				w.viol(sc, &out, "close-hangs", fmt.Sprintf("SessionManager.Close did not return within %v", hrLeaveLimit))
 				return
@@ -1635,6 +1731,15 @@ func hrRunScenario(sc *hrScenario, job *hrJob) (out hrOutcome) {
 	if w.closeDone == nil && (!w.oldClosed || w.newL != nil) && atomic.LoadInt32(&w.abort) == 0 {
 		hrObserveHeal(w, sc, job, &out)
 	}
+	if atomic.LoadInt32(&w.abort) == 0 {
+		if detail := w.orphanOracle(); detail != "" {
+			if atomic.LoadInt32(&w.onClosed) == 1 && hrHas(job.Known, "hr-on-closed-session") {
+				out.known = append(out.known, "hr-on-closed-session: "+detail)
+			} else {
+				w.viol(sc, &out, "orphan-session", detail)
+			}
+		}
+	}
 	w.mu.Lock()
 	for _, mv := range w.monViol {
 		out.violations = append(out.violations, hrViolation{Property: sc.Prop, Kind: mv[0], Scenario: sc.Name, Detail: mv[1],
@@ -1642,7 +1747,15 @@ func hrRunScenario(sc *hrScenario, job *hrJob) (out hrOutcome) {
 	}
 	out.known = append(out.known, w.monKnown...)
 	w.mu.Unlock()
-	if !sc.Raw && !oracleOnly && out.drift == "" && prev != nil && prev != initX && prev.Quiet {
+	terminal := prev != nil && prev.Quiet && prev.LState != "hot" && prev.MState != "hot"
+	if terminal {
+		for p := 0; p < w.np; p++ {
+			if !prev.Sess[prev.Cur[p]-1].Alive {
+				terminal = false // a watcher will act once the time comes
+			}
+		}
+	}
+	if !sc.Raw && !oracleOnly && out.drift == "" && prev != initX && terminal {
 		// nothing more may be created: wait a few rebuild intervals and count the sessions again (C17: not rebuilt twice,
 		// Close stops everything)
 		time.Sleep(3*rebuild + 30*time.Millisecond)
@@ -1839,6 +1952,9 @@ func TestVS_HotRestart(t *testing.T) {
 	}
 	hrPanicMu.Unlock()
 	hrRunFree(&job, &res)
+	hrPanicMu.Lock()
+	res.CallPanics = append([]string{}, hrCallPanics...)
+	hrPanicMu.Unlock()
 	b, _ := json.Marshal(res)
 	if err := os.WriteFile(os.Getenv("VS_OUT"), b, 0o644); err != nil {
 		t.Fatal(err)
@@ -1878,6 +1994,7 @@ func hrRunFree(job *hrJob, res *hrResult) {
 			continue
 		}
 		w.startTraffic()
+		time.Sleep(100 * time.Millisecond)
 		env := func(ev string, a int) {
 			seq := atomic.AddInt64(&hrGlobalSeq, 1)
 			w.mu.Lock()
@@ -1969,8 +2086,19 @@ func hrRunFree(job *hrJob, res *hrResult) {
 			byName[c.name] = append(byName[c.name], c)
 			next++
 		}
-		firstPick := map[int]bool{}
-		_ = enc.Encode(hrLine{Ev: "reset", A: fr.NP, T: []int{}, Run: fr.Name})
+		// a watcher whose first recorded event is a WPick had not yet reached its select when recording began
+		startsInPick := []int{}
+		for p := 0; p < fr.NP; p++ {
+			for _, e := range evs {
+				if (e.Ev == "WPick" || e.Ev == "WLost" || e.Ev == "WSkip" || e.Ev == "WExit") && int(e.A) == p {
+					if e.Ev == "WPick" {
+						startsInPick = append(startsInPick, p+1)
+					}
+					break
+				}
+			}
+		}
+		_ = enc.Encode(hrLine{Ev: "reset", A: fr.NP, T: startsInPick, Run: fr.Name})
 		n := 0
 		resolve := func(s *Session) int {
 			if s == nil {
@@ -2027,16 +2155,7 @@ func hrRunFree(job *hrJob, res *hrResult) {
 			case "WRebuilt", "SMClosing":
 				continue
 			case "WPick":
-				// the model starts with every watcher already waiting on its initial session
-				if !firstPick[int(e.A)] {
-					firstPick[int(e.A)] = true
-					if id, ok := ids[e.S]; ok && id == int(e.A)+1 {
-						continue
-					}
-				}
 				ln.S = resolve(e.S)
-			case "WLost":
-				firstPick[int(e.A)] = true
 			default:
 				ln.S = resolve(e.S)
 			}
@@ -2050,5 +2169,91 @@ func hrRunFree(job *hrJob, res *hrResult) {
 			res.FreeNotes = append(res.FreeNotes, fr.Name+": "+note)
 		}
 		w.destroy()
+	}
+}
+
+// ---------------------------------------------------------------- staged race: GetStream against the teardown of a lost session
+
+// Witness of the finding "openstream-teardown": Session.OpenStream checks IsClosed, then registers the stream in
+// s.streams; if the session is lost and torn down in between (the teardown sets s.streams = nil) the registration is a
+// write to a nil map: GetStream panics instead of failing with an error. The goroutine is parked at the scheduling
+// point the rewriter puts in front of the atomic.AddUint32 between the two (gate mode; needs zz_vs_sched.go and
+// Session.OpenStream instrumented).
+func TestVS_HotRestartGate(t *testing.T) {
+	if os.Getenv("VS_IN_JOB") == "" {
+		t.Skip("VS_IN_JOB not set")
+	}
+	type gateResult struct {
+		Reproduced bool   `json:"reproduced"`
+		Detail     string `json:"detail"`
+		Note       string `json:"note"`
+	}
+	var res gateResult
+	defer func() {
+		b, _ := json.Marshal(res)
+		_ = os.WriteFile(os.Getenv("VS_OUT"), b, 0o644)
+	}()
+	w, err := hrNewWorld("gate", 1, 60*time.Millisecond, false)
+	if err != nil {
+		res.Note = "cannot set up: " + err.Error()
+		return
+	}
+	defer w.destroy()
+	// a first round trip so that the pool is warm and the epoll loop is awake
+	if err, _ := w.probePool(0, "warm"); err != nil {
+		res.Note = "warm-up round trip failed: " + err.Error()
+		return
+	}
+	c := w.cli[1]
+	// empty the stream pool so that GetStream has to call OpenStream
+	for st := w.sm.pools[0].pop(); st != nil; st = w.sm.pools[0].pop() {
+		st.Close()
+	}
+	vsReset(vsGate)
+	defer vsReset(vsOff)
+	g := vsGateArm("Session.OpenStream:AddUint32", 1)
+	done := make(chan string, 1)
+	go func() {
+		defer func() {
+			if r := recover(); r != nil {
+				done <- fmt.Sprintf("panic: %v", r)
+			}
+		}()
+		st, err := w.sm.GetStream()
+		if err != nil {
+			done <- "error: " + err.Error()
+			return
+		}
+		_ = st
+		done <- "stream"
+	}()
+	select {
+	case <-g.hit:
+	case <-time.After(20 * time.Second):
+		res.Note = "GetStream did not reach OpenStream"
+		close(g.release)
+		return
+	}
+	// the session is lost now: its server end is closed, the client end notices and tears itself down
+	w.srv[1].Close()
+	torn := w.waitFor(20*time.Second, func() bool {
+		if !c.IsClosed() {
+			return false
+		}
+		c.streamLock.Lock()
+		defer c.streamLock.Unlock()
+		return c.streams == nil
+	})
+	close(g.release)
+	if !torn {
+		res.Note = "the client session was not torn down in time"
+	}
+	select {
+	case out := <-done:
+		res.Detail = "GetStream racing with the loss of the pool's session (parked after the IsClosed check of Session.OpenStream, session torn down, resumed): " + out
+		res.Reproduced = strings.HasPrefix(out, "panic")
+	case <-time.After(20 * time.Second):
+		res.Detail = "GetStream did not return within 20 s after the session was torn down"
+		res.Reproduced = true
 	}
 }
